@@ -43,7 +43,7 @@ BUILTIN_EXC = {
 }
 
 MAX_DEPTH = 14
-MAX_PATHS = 6000
+MAX_PATHS = 60000
 
 
 class Obligation:
@@ -947,7 +947,8 @@ class Engine:
                     vb = self.merged_value(node.orelse, sb)
                 except SpecError:
                     va = vb = None
-                if va is not None and va.kind == vb.kind and va.kind.tag in ("int", "bool", "real", "str", "ref", "list", "seq"):
+                # (values only: a list built inside a branch lives in that branch's heap and cannot be merged)
+                if va is not None and va.kind == vb.kind and va.kind.tag in ("int", "bool", "real", "str", "ref", "seq"):
                     if va.aux and vb.aux and "bits" in va.aux and "bits" in vb.aux:
                         bits = [z3.If(c, x, y) for x, y in zip(va.aux["bits"], vb.aux["bits"])]
                         return [Out("ok", st, self.flags_value(bits, z3.If(c, va.aux["hi"], vb.aux["hi"])))]
